@@ -54,3 +54,6 @@ Check (C17.C17_values_over_bed_last : forall s e vals, s <= e ->
 Check (C17.C17_stats_per_base : forall len s e vals, wf_vals len vals -> s <= e -> all_finite (clip_filter s e vals) ->
   bases_of (clip_filter s e vals) = N.of_nat (covered_count vals s e) /\
   (fl_Q (sum_of exact (clip_filter s e vals)) == sum_over (base_val vals) (region_bases s e))%Q).
+Check (C17.C17_values_rows_in_order : forall q withnames bed rows,
+  values_over_bed q withnames bed = Ok rows <->
+  Forall2 (fun l r => vob_line q withnames (unique_names withnames bed) l = Ok r) (file_lines bed) rows).
